@@ -51,8 +51,8 @@ theorem merged_lookup (fs : List (File α β κ)) (id : ID) :
     | cons f fs ih => simp [← ih]
 
 example : find (mergeBlocks
-    [ (⟨[0, 5], [⟨0, [1, 1, 1, 1], [0, 5], [⟨1, .full, "a", some "x"⟩]⟩], fun _ => []⟩ : File String String Unit),
-      ⟨[0, 5, 7], [⟨0, [1, 1, 1, 1], [0, 5, 7], [⟨2, .full, "b", some "y"⟩]⟩], fun _ => []⟩ ]) ⟨0, 5, 2⟩
+    [ (⟨[0, 5], [⟨0, [1, 1, 1, 1], [0, 5], [⟨1, .full, "a", some "x", []⟩]⟩], fun _ => []⟩ : File String String Unit),
+      ⟨[0, 5, 7], [⟨0, [1, 1, 1, 1], [0, 5, 7], [⟨2, .full, "b", some "y", []⟩]⟩], fun _ => []⟩ ]) ⟨0, 5, 2⟩
     = some "b" := by decide
 
 /-- Lookups find features from any file: whatever a file holds is found in the merged world. -/
@@ -120,14 +120,14 @@ theorem has_eq_find (w : List (Block α β)) (id : ID) : hasByID w id = (find w 
 one namespace split over two files, the id in the second — found, yet reported absent. -/
 theorem has_first_block_counterexample :
     ∃ (w : List (Block Nat Nat)) (id : ID), find w id ≠ none ∧ hasFirstBlock w id = false :=
-  ⟨[⟨0, [1, 1, 1, 1], [0, 5], [⟨1, .full, 10, some 100⟩]⟩,
-    ⟨0, [1, 1, 1, 1], [0, 5], [⟨2, .full, 20, some 200⟩]⟩], ⟨0, 5, 2⟩, by decide⟩
+  ⟨[⟨0, [1, 1, 1, 1], [0, 5], [⟨1, .full, 10, some 100, []⟩]⟩,
+    ⟨0, [1, 1, 1, 1], [0, 5], [⟨2, .full, 20, some 200, []⟩]⟩], ⟨0, 5, 2⟩, by decide⟩
 
 /-- … and it reported a references-only entry (a point some path mentions, stored elsewhere or nowhere)
 as a feature. -/
 theorem has_first_block_refonly_counterexample :
     ∃ (w : List (Block Nat Nat)) (id : ID), find w id = none ∧ hasFirstBlock w id = true :=
-  ⟨[⟨0, [1, 1, 1, 1], [0, 5], [⟨1, .refOnly, 0, none⟩]⟩], ⟨0, 5, 1⟩, by decide⟩
+  ⟨[⟨0, [1, 1, 1, 1], [0, 5], [⟨1, .refOnly, 0, none, []⟩]⟩], ⟨0, 5, 1⟩, by decide⟩
 
 /-! ## Searches -/
 
@@ -213,8 +213,64 @@ theorem overlay_path_no_panic (w : List (Block α β)) (refs : List ID)
 
 /-- overlay merged *before* its base: the path 42 over base points 1 and 3 resolves to the base's locations -/
 example : pathPoints
-    ([ (⟨0, [1, 2, 2, 3], [0, 1, 2, 3], [⟨1, .refOnly, "", none⟩, ⟨3, .refOnly, "", none⟩]⟩ : Block String String) ] ++
-     [ ⟨0, [1, 2, 2, 3], [0, 1, 2, 3], [⟨1, .full, "p1", some "A"⟩, ⟨2, .full, "p2", some "B"⟩, ⟨3, .full, "p3", some "C"⟩]⟩ ])
+    ([ (⟨0, [1, 2, 2, 3], [0, 1, 2, 3], [⟨1, .refOnly, "", none, [⟨1, 2, 42⟩]⟩, ⟨3, .refOnly, "", none, [⟨1, 2, 42⟩]⟩]⟩ : Block String String) ] ++
+     [ ⟨0, [1, 2, 2, 3], [0, 1, 2, 3], [⟨1, .full, "p1", some "A", []⟩, ⟨2, .full, "p2", some "B", []⟩, ⟨3, .full, "p3", some "C", []⟩]⟩ ])
     [⟨0, 1, 1⟩, ⟨0, 1, 3⟩] = some ["A", "C"] := by decide
+
+/-! ## Paths through a point, across files -/
+
+/-- `FindReferences(p, path)` on the merged world: exactly the paths that *some* merged block records against
+the point — the point's own file, or an overlay's references-only entry for a base point, in any merge
+order — and that exist in the merged world; each once. -/
+theorem paths_by_point_any_file (w : List (Block α β)) (p q : ID) (hp : p.typ = 0) :
+    q ∈ pathRefs w p ↔ (∃ b ∈ w, Lists b p q) ∧ (find w q).isSome = true := by
+  unfold pathRefs
+  rw [if_pos hp, List.mem_filter, mem_pathsByPoint]
+  simp
+
+theorem paths_by_point_nodup (w : List (Block α β)) (p : ID) : (pathRefs w p).Nodup := by
+  unfold pathRefs
+  split
+  · exact (nodup_pathsByPoint w [] (by simp)).filter _
+  · simp
+
+/-- the overlay path 42 is found from base point 1, with the overlay merged before its base -/
+example : pathRefs
+    ([ (⟨0, [1, 2, 2, 3], [0, 1, 2, 3], [⟨1, .refOnly, "", none, [⟨1, 2, 42⟩]⟩]⟩ : Block String String),
+       ⟨1, [1, 2, 2, 3], [0, 1, 2, 3], [⟨42, .plain, "w42", none, []⟩]⟩ ] ++
+     [ ⟨0, [1, 2, 2, 3], [0, 1, 2, 3], [⟨1, .common, "p1", some "A", [⟨1, 2, 7⟩]⟩]⟩,
+       ⟨1, [1, 2, 2, 3], [0, 1, 2, 3], [⟨7, .plain, "w7", none, []⟩]⟩ ])
+    ⟨0, 1, 1⟩ = [⟨1, 2, 42⟩, ⟨1, 2, 7⟩] := by decide
+
+/-! ## EachFeature -/
+
+/-- `EachFeature` over the merged world lists exactly the ids the lookup finds, whatever file they came
+from (blocks with duplicate-free tables and one entry per value). -/
+theorem each_agrees_with_lookup (w : List (Block α β)) (ids : List ID) (h : each w = some ids)
+    (hwf : ∀ b ∈ w, WFBlock b) (id : ID) : id ∈ ids ↔ (find w id).isSome = true := by
+  rw [mem_each h]
+  constructor
+  · rintro ⟨b, hb, hlt, he⟩
+    obtain ⟨c, hc⟩ := holds_of_emits (hwf b hb) he
+    obtain ⟨c', hc'⟩ := findIn_complete ⟨b, hb, hc⟩
+    have ht : id.typ < numTypes := by rw [he.1]; exact hlt
+    simp [find, ht, hc']
+  · intro hf
+    unfold find at hf
+    split at hf
+    · rename_i ht
+      cases hfi : findIn w id with
+      | none => simp [hfi] at hf
+      | some c =>
+        obtain ⟨b, hb, hh⟩ := findIn_sound hfi
+        have he := emits_of_holds hh
+        exact ⟨b, hb, by rw [← he.1]; exact ht, he⟩
+    · simp at hf
+
+example : each
+    [ (⟨0, [1, 2, 2, 3], [0, 1, 2, 3], [⟨1, .refOnly, "", none, []⟩, ⟨4, .full, "p4", some "D", []⟩]⟩ : Block String String),
+      ⟨1, [1, 2, 2, 3], [0, 1, 2, 3], [⟨42, .plain, "w42", none, []⟩]⟩,
+      ⟨0, [1, 2, 2, 3], [0, 1, 2, 3], [⟨1, .common, "p1", some "A", []⟩]⟩ ]
+    = some [⟨0, 1, 4⟩, ⟨0, 1, 1⟩, ⟨1, 2, 42⟩] := by decide
 
 end B6.Props.C17
